@@ -59,7 +59,12 @@ class SymArray:
     def __init__(self, world): self.w = world; self.store = {s: 0 for s in world.others}
     def __len__(self): return 2**16
     def __iter__(self): return iter(self.store.values())
-    def __getitem__(self, i): return self.store[i]
+    def __getitem__(self, i):
+        if isinstance(i, slice):
+            # slicing a list / RawArray gives a private COPY: later updates of the shared table are not seen through it
+            snap = SymArray.__new__(SymArray); snap.w = self.w; snap.store = dict(self.store); snap.sync = lambda: None
+            return snap
+        return self.store[i]
     def __setitem__(self, i, v): self.store[i] = v
     def sync(self):
         for s in self.store: self.store[s] = self.w.counter(s)
